@@ -16,7 +16,7 @@ RULE = ("random shots fired with extra data: sight above / on / below the bore, 
         "a case = (shot, request); non-trivial when the trace contains at least one crossing")
 MUST_OBSERVE = ["fires_with_time_step", "fires", "trace_points", "up_crossings", "down_crossings", "mach_crossings", "flagged_rows_located",
                 "shots_without_events", "zeros_calls", "zeros_raises", "inclined", "launch_on_line",
-                "launch_above_line"]
+                "launch_above_line", "same_request_served_before"]
 ASSUMPTIONS = ["a launch exactly on the sight line is not a crossing 'beyond the muzzle': for such launches events of the "
                "first integration step are neither required nor forbidden",
                "'within one step after the event' is checked two-sidedly against the crossing step of the trace (the flagged row "
@@ -39,6 +39,14 @@ def check_case(ctx, case):
             except (pb.ZeroFindingError, pb.RangeError):
                 pass
     look = shot.look_angle >> Angular.Radian
+    for _ in range(case.get("fired_before", 0)):
+        # the very same request was served before by the same calculator (a table refreshed, a value re-read)
+        with monitors.quiet():
+            try:
+                calc.fire(shot, Distance.Foot(case["range_ft"]), Distance.Foot(case["step_ft"]), extra_data=True, time_step=case.get("time_step") or 0.0)
+            except pb.RangeError:
+                pass
+        ctx.count("same_request_served_before")
     trace = monitors.StepTrace()
     with monitors.quiet(), trace:
         try:
@@ -225,6 +233,8 @@ def gen_case(rng):
         case["time_step"] = rng.choice([0.0003, 0.001, 0.004, 0.02])
         if r_ft <= 1500.0 and rng.random() < 0.3:
             case["time_step"] = 1e-5        # below the integration time step: every step is a time record
+    if kind != "loft" and rng.random() < 0.3:
+        case["fired_before"] = rng.choice([1, 1, 2])
     if cfg:
         case["config"] = cfg
     elif rng.random() < 0.15:
